@@ -17,6 +17,7 @@ SKELETON_LEAVES = [
     {"name": "e", "decl": "Enum", "en": "Ea"},
     {"name": "h", "decl": "Enum", "en": "Eb"},
     {"name": "s", "decl": "Struct", "en": ""},
+    {"name": "s.flag", "decl": "Struct", "en": ""},
     {"name": "r", "decl": "Array", "en": ""},
     {"name": "s.x", "decl": "UInt", "en": ""},
     {"name": "vi", "decl": "VInt", "en": ""},
@@ -89,14 +90,14 @@ def render(prog):
     sp["asig"] = {"def": [ea1, ea2], "at": [l_asig, l_asig]}
     sp["enumv"] = {"def": [l_enumv, l_enumv], "at": [l_enumv, l_enumv]}
     for t in ["enum Eb:", "  BA = 1", "  BB = 2", "enum Ec:", "  CA = 1", "  CB = 2",
-              "struct Inner:", "  0 [+1]  bits:", "    0 [+3]  UInt  x",
+              "struct Inner:", "  0 [+1]  bits:", "    0 [+3]  UInt  x", "  1 [+1]  bits  flag:", "    0 [+8]  UInt  fx",
               "struct Pa(pi: UInt:3, pe: Ea):", "  0 [+1]  UInt  z"]:
         L.add(t)
     sa1 = L.add("struct Sa(p: UInt:3, pj: Int:3, q: Ea):")
     l_sreq = L.add("  [requires: %s]" % expr(s["sreq"]))
     for t in ["  0 [+2]  bits:", "    0 [+3]  UInt  a", "    3 [+3]  Int  b", "    6 [+1]  Flag  f",
               "    7 [+1]  Flag  g", "    8 [+4]  Bcd  c", "  2 [+1]  Ea  e", "  3 [+1]  Eb  h",
-              "  4 [+1]  Inner  s", "  5 [+2]  UInt:8[2]  r", "  let vi = a + 1", "  let vb = a < 2",
+              "  4 [+2]  Inner  s", "  5 [+2]  UInt:8[2]  r", "  let vi = a + 1", "  let vb = a < 2",
               "  let ve = f ? Ea.AB : e"]:
         L.add(t)
     l = L.add("  %s [+1]  UInt  t_start" % expr(s["start"]))
